@@ -120,6 +120,34 @@ def gen_index(rng, wild, ncols):
     }
 
 
+def add_namesake_case(rng, spec):
+    """A table in another schema that shares its bare name with a public table, and - declared inside that other schema - an
+    inline reference to the PUBLIC one (which the document may address by its bare name). In place; -> True when added."""
+    pub = [i for i, t in enumerate(spec['tables']) if t['schema'] == 'public' and t['columns']]
+    if not pub:
+        return False
+    pi = rng.choice(pub)
+    p = spec['tables'][pi]
+    sch = rng.choice(['sales', 'hr', 'auth'])
+    if any(t['schema'] == sch and t['name'] == p['name'] for t in spec['tables']):
+        return False
+    plain = lambda n, ty='int': {'name': n, 'type': ty, 'unique': False, 'not_null': False, 'pk': False, 'autoinc': False,  # noqa: E731
+                                 'default': None, 'note': '', 'comment': None, 'props': []}
+    tab = lambda n, cols: {'name': n, 'schema': sch, 'alias': None, 'columns': cols, 'indexes': [], 'note': '', 'header_color': None,  # noqa: E731
+                           'comment': None, 'abstract': False, 'props': []}
+    spec['tables'].append(tab(p['name'], [plain(p['columns'][0]['name']), plain('only_in_' + sch)]))
+    if rng.random() < 0.6:
+        other = 'sessions_%d' % rng.randrange(100)
+        if any(t['name'] == other for t in spec['tables']):
+            return True
+        spec['tables'].append(tab(other, [plain('k'), plain('fk_col')]))
+    src = len(spec['tables']) - 1
+    spec['refs'].append({'type': rng.choice(['>', '-', '<']), 't1': src, 'col1': [len(spec['tables'][src]['columns']) - 1],
+                         't2': pi, 'col2': [0], 'name': None, 'comment': None, 'on_update': None, 'on_delete': None,
+                         'inline': rng.random() < 0.8})
+    return True
+
+
 def gen_spec(rng, wild=False, max_tables=5, allow_props=None, refs_wild_comment=False):
     n_enums = rng.choice([0, 0, 1, 2, 3])
     enums = []
